@@ -190,7 +190,10 @@ def loop_table(repo: Repo, module: str, cls: str) -> tuple[list[Path], str, list
         from ..symeval import Obj, SymEval
         fi = repo.func(module, f'{cls}._sequence')
         body = fi.node.body
-        cut = next((i for i, st in enumerate(body) if any(isinstance(x, _ast.While) for x in _ast.walk(st))), None)
+        params0 = [p for p in fi.params() if p != 'self']
+        def scan_loop(x: Any) -> bool:
+            return isinstance(x, _ast.While) or (isinstance(x, _ast.For) and isinstance(x.iter, _ast.Name) and params0 and x.iter.id == params0[0])
+        cut = next((i for i, st in enumerate(body) if any(scan_loop(x) for x in _ast.walk(st))), None)
         if cut is None:
             raise AnalysisError(f'{cls}._sequence: scan loop not found')
         sub = sub_function(fi, body[:cut + 1], 'through-loop')
@@ -201,12 +204,58 @@ def loop_table(repo: Repo, module: str, cls: str) -> tuple[list[Path], str, list
         scan = None
         for p in paths:
             for k in p.decisions:
-                if k.startswith('loop@while:') and k.endswith(" == ']'"):
+                if (k.startswith('loop@while:') or k.startswith('elem(')) and k.endswith(" == ']'"):
                     scan = k[:-len(" == ']'")]
         if scan is None:
             raise AnalysisError(f'{cls}._sequence: the loop is not controlled by a comparison of the scan character with `]`')
         return [p for p in paths if p.decisions.get(f"{scan} == ']'") is False], scan, paths
     return cached(repo, f'seqrules:loop:{module}:{cls}', build)
+
+
+def prologue_reads(repo: Repo, module: str, cls: str) -> dict:
+    """What <cls>._sequence consumes before its scan loop, as a function of the first two characters (each one of ! ^ [ - ] or `x`):
+    (characters consumed net of put-backs, after which read a POSIX class is tried).  Read off the decision table of the prologue."""
+    def build() -> dict:
+        import itertools
+        _ev, paths = tabulate_method(repo, module, f'{cls}._sequence', {}, [Opaque('i')], inline=False, loop_mode='skip', max_paths=4000,
+                                     call_models={'re.escape': lambda fr, n, a, k: Opaque(f're.escape({_tag(a[0])})')})
+        out: dict = {}
+        alphabet = ('!', '^', '[', '-', ']', 'x')
+        for c1, c2 in itertools.product(alphabet, alphabet):
+            hits = set()
+            for p in paths:
+                focus(p)
+                ok = True
+                for k, v in p.decisions.items():
+                    for tag, ch in (('next(i)', c1), ('next(i)#2', c2)):
+                        if k.startswith(tag + ' == '):
+                            import ast as _ast
+                            if (_ast.literal_eval(k[len(tag) + 4:]) == ch) != v:
+                                ok = False
+                if not ok:
+                    continue
+                pre = []
+                ahead = 0
+                for e in p.events:
+                    if e[0] == 'loop':
+                        # a `while c != ..` loop examines the character already read; a `for c in i` loop reads its own
+                        import ast as _ast2
+                        ahead = 1 if isinstance(e[1], _ast2.While) else 0
+                        break
+                    pre.append(e)
+                reads = sum(1 for e in pre if e[0] == 'call' and e[1] == 'next') - ahead
+                backs = sum(e[2][0] for e in pre if e[0] == 'call' and e[1].endswith('.rewind') and e[2] and isinstance(e[2][0], int))
+                posix_at = None
+                n = 0
+                for e in pre:
+                    if e[0] == 'call' and e[1] == 'next':
+                        n += 1
+                    elif e[0] == 'call' and (e[1].endswith('._handle_posix') or e[1] == 'i.match'):
+                        posix_at = n
+                hits.add((reads - backs, posix_at))
+            out[(c1, c2)] = hits
+        return out
+    return cached(repo, f'seqrules:prologue:{module}:{cls}', build)
 
 
 def _char(p: Path, scan: str) -> Any:
@@ -242,7 +291,9 @@ def rule_scan_loops(ctx: Ctx, rule: str, which: set[str] | None = None) -> None:
             refs = [e for e in p.of('call') if e[1] == f'{module}:{cls}._references']
             if c == '/':
                 pn = p.decisions.get('self.pathname') if has_pn else True
-                if (p.raised == 'StopIteration') != bool(pn) or (has_pn and pn is None):
+                # (a raise after the iteration has ended -- `for .. else: raise` on exhaustion -- is not this character's doing)
+                in_iter = p.raised if not any(e[0] == 'iterend' for e in p.events) else None
+                if (in_iter == 'StopIteration') != bool(pn) or (has_pn and pn is None):
                     bad_s.append(f'pathname={pn}: raises {p.raised}')
             elif c == '\\':
                 exc = [e for e in p.events if e[0] == 'except']
